@@ -117,6 +117,9 @@ def run(ctx):
                 faults.append("bson-int")
             if fmt in ("json", "xml", "bson"):
                 faults.append("set-value")
+            if fmt == "xml":
+                faults += ["xml-control-char", "xml-bad-key"]
+            faults.append("keyfile-retry")
             for fault in faults:
                 before = snapshot(dest)
                 schema, cfg, kp = build(rng, tmp, method)
@@ -159,6 +162,13 @@ def run(ctx):
                     cfg.port = 2 ** 70
                 elif fault == "set-value":
                     cfg.extra = {1, 2, 3}
+                elif fault == "xml-control-char":
+                    cfg.db.host = "a\x0bb"                       # not an XML character
+                elif fault == "xml-bad-key":
+                    cfg.limits = {"cost center": 1}               # not an XML name
+                elif fault == "keyfile-retry":
+                    with open(kp, "wb") as f:
+                        f.write(bytes(rng.getrandbits(8) for _ in range(rng.choice([9, 16, 24, 40]))))
                 raised = None
                 try:
                     with OpenLog() as ol:
@@ -166,11 +176,32 @@ def run(ctx):
                             cfg.save(target, fmt_arg)
                         except Exception as e:  # noqa
                             raised = type(e).__name__
+                        if fault == "keyfile-retry" and raised is not None:
+                            # the same object asked again must fail again: nothing about the key file has changed
+                            try:
+                                cfg.save(target, fmt_arg)
+                                raised = None
+                            except Exception as e:  # noqa
+                                raised = type(e).__name__
                 finally:
                     for u in undo:
                         u()
                 case = {"stream": "save-fault", "fmt": fmt, "fault": fault, "method": method}
                 res.case(("fault", fmt, fault, it), sample=case if it == 0 else None, kind="fault:" + fault)
+                if raised is None and fault in ("xml-control-char", "xml-bad-key", "keyfile-retry"):
+                    # the save went through: then the file it wrote has to load back (with the key file as it is now)
+                    c3 = schema()
+                    c3._key_filename = kp
+                    try:
+                        c3.load(dest, fmt)
+                        same = asdict(c3) == asdict(cfg)
+                    except Exception as e:  # noqa
+                        same = False
+                    if not same:
+                        res.violate("C19:successful-save-does-not-load:" + fault, "a save that reported success replaced the previous file with one that does not load back",
+                                    dict(case, before_len=len(before[0]) if before else None))
+                    res.hist["fault-did-not-fire:" + fault] += 1
+                    continue
                 if raised is None:
                     # the injected condition did not make serialisation fail (e.g. the format can encode it): nothing to check
                     res.hist["fault-did-not-fire:" + fault] += 1
